@@ -100,6 +100,7 @@ def merge_shards(parts):
         a["engine_bugs"] = (a.get("engine_bugs") or []) + (b.get("engine_bugs") or [])
         a["samples"] = ((a.get("samples") or []) + (b.get("samples") or []))[:4]
         a["witnesses"] = (a.get("witnesses") or []) + (b.get("witnesses") or [])
+        a["fallback"] = ((a.get("fallback") or []) + (b.get("fallback") or []))[:96]
         a["functions"] = sorted(set((a.get("functions") or []) + (b.get("functions") or [])))
         a["stubs"] = sorted(set((a.get("stubs") or []) + (b.get("stubs") or [])))
         if not b["complete"]:
@@ -368,6 +369,36 @@ def main():
                     confirmed.append(rec)
                 else:
                     mismatches.append(rec)
+        # --- native fallback: inputs that reach constructs the executor cannot
+        # interpret are run against the real code (sampling; the harness stays
+        # incomplete, but an assertion that fails natively is a confirmed violation)
+        fb_by_job, fb_total = {}, 0
+        for h in harness_res:
+            for fi, f in enumerate(h.get("fallback") or []):
+                tag = f"{h['harness']}|fb{fi}"
+                fb_by_job.setdefault(h["_job"], []).append({"harness": h["harness"], "tag": tag, "model": f["model"]})
+        for jn, cases in fb_by_job.items():
+            job = jobs_by_name[jn]
+            outs = native_replay(job, cases, tmp, "fb", race=False)
+            if "_error" in outs:
+                infra.append(f"native fallback of {jn} failed: {outs['_error'][:3]}")
+                continue
+            seen_fb = set()
+            for c in cases:
+                fb_total += 1
+                lines = outs.get(c["tag"], [])
+                for l in lines:
+                    aid, kind = None, "assert"
+                    if l.startswith("REPLAY-ASSERT-FAIL "):
+                        aid = l[len("REPLAY-ASSERT-FAIL "):].strip()
+                    elif l.startswith("REPLAY-PANIC"):
+                        aid, kind = "no-panic", "panic"
+                    if aid is None or (c["harness"], aid) in seen_fb:
+                        continue
+                    if (inc and not re.search(inc, aid)) or (exc and re.search(exc, aid)):
+                        continue
+                    seen_fb.add((c["harness"], aid))
+                    confirmed.append({"harness": c["harness"], "assert": aid, "kind": kind, "detail": "found by native run of an input whose path the executor could not finish", "model": c["model"], "replay_output": lines[:40], "job": jn})
         # --- witness validation
         wit_total, wit_ok = 0, 0
         wcases_by_job = {}
@@ -514,6 +545,7 @@ def write_evidence(prop, tier, seed, P, harness_res, confirmed, mismatches, know
         "counterexamples_confirmed": len(confirmed),
         "known_findings_seen": sorted(known_seen),
         "witness_replays": {"run": wit_total, "agree": wit_ok},
+        "native_fallback_runs": sum(len(h.get("fallback") or []) for h in harness_res),
         "incomplete": infra,
         "outside": P.get("outside", []),
         "cross_checks": P.get("_cross", []),
